@@ -59,6 +59,16 @@ def gen_dataset(rnd, buf):
             base[0] = tr
         nid += len(tr)
         evs += tr
+    if base[0] and rnd.random() < 0.6:
+        # a trace that lost a span (one extra span whose parent was never exported) but whose part reachable from the root
+        # has the shape of a complete trace; listed before or after it, with a smaller or larger trace id
+        src = base[0]
+        job = rnd.choice([50, 950])         # sorts before / after every other trace id
+        tw = [dict(e, id=nid + k, job=job, par=(nid + (e["par"] - src[0]["id"]) if e["par"] is not None else None)) for k, e in enumerate(src)]
+        tw.append(dict(tw[-1], id=nid + len(src), par=990000 + nid, ty=1 + rnd.randrange(3)))
+        nid += len(tw)
+        pos = 2 if rnd.random() < 0.5 else len(evs)
+        evs[pos:pos] = tw
     if rnd.random() < 0.3:      # a duplicate span id inside the files
         evs.append(dict(evs[rnd.randrange(2, len(evs))]))
     return evs
